@@ -76,6 +76,32 @@ def check_monoidal(rep, D, shard):
         rep.sample('monoidal functor ob=%r on %d diagrams' % (ob, len(D)))
 
 
+def check_swap_dagger(rep):
+    """F(Swap(x, y)[::-1]) == F(Swap(x, y))[::-1] for object images of every pair of lengths 0..3 (monoidal and rigid)"""
+    from discopy import monoidal, rigid
+    for mod in (monoidal, rigid):
+        Ty, Swap, Functor = mod.Ty, mod.Swap, mod.Functor
+        x, y = Ty('x'), Ty('y')
+        atoms = [Ty(n) for n in 'abcdef']
+        for lx in range(4):
+            for ly in range(4):
+                ix = Ty().tensor(*atoms[:lx]) if lx else Ty()
+                iy = Ty().tensor(*atoms[3:3 + ly]) if ly else Ty()
+                F = Functor({x: ix, y: iy}, {})
+                s_ = Swap(x, y)
+                inp = '%s: Functor({x: %r, y: %r}, {}) on Swap(x, y)' % (mod.__name__.split('.')[-1], ix, iy)
+                rep.case(inp)
+                a, b = common.outcome(lambda: F(s_[::-1])), common.outcome(lambda: F(s_)[::-1])
+                rep.count('swap.dagger')
+                if a[0] != 'ok' or b[0] != 'ok':
+                    rep.fail('C04:swap.dagger.raises', '%r / %r' % (a, b), inp)
+                elif a[1] != b[1]:
+                    # known finding F27 when both images have >= 2 wires (the two sides then differ by interchangers)
+                    same_up_to = (a[1].dom, a[1].cod, sorted(map(repr, a[1].boxes))) == (b[1].dom, b[1].cod, sorted(map(repr, b[1].boxes)))
+                    key = 'C04:swap.dagger.long_images' if lx >= 2 and ly >= 2 and same_up_to else 'C04:swap.dagger'
+                    rep.fail(key, 'F(s[::-1]) = %r but F(s)[::-1] = %r' % (a[1], b[1]), inp)
+
+
 def check_cat(rep):
     x, y, z = cat.Ob('x'), cat.Ob('y'), cat.Ob('z')
     f, g, h = cat.Box('f', x, y), cat.Box('g', y, z), cat.Box('h', z, x)
@@ -164,4 +190,6 @@ def run(tier, seed=0, shard=(0, 1)):
         check_cat(rep)
     if shard[0] == 1 % shard[1]:
         check_rigid(rep, shard)
+    if shard[0] == 2 % shard[1]:
+        check_swap_dagger(rep)
     return rep.result()
